@@ -41,5 +41,8 @@ if rc == 1 and sigs:
     meta["last_run_in_repo"] = inrepo or meta.get("last_run_in_repo", False)
 else:
     meta["detected_by"] = f"NOT DETECTED by {pid} quick (rc={rc})" + ("; " + old if old and "NOT DETECTED" not in old else "")
+import os
+vs = os.environ.get("VERIF_SEED", "1")
+meta.setdefault("detected_at_verif_seed", {})[vs] = bool(rc == 1 and sigs)
 json.dump(meta, open(d + "/meta.json", "w"), indent=1)
 print(pid, n, "rc=%s" % rc, "; ".join(sigs[:4]))
